@@ -79,8 +79,12 @@ CHECKS['C18'] = (OTHER, 'symbolic execution of the real ConeCyl object (_rebuild
     'Bounded symbolic verification for the classical Donnell shell models bc1-bc4: derived geometry consistent and idempotent for every admissible input pair (cone and cylinder), partition/re-insertion of prescribed amplitudes is the identity for every admitted subset, calc_full_c inverts it for any load factor, load vector of point forces / torque / axial force = virtual work against the package own uvw, prescribed-displacement right-hand-side terms.',
     'Pressure and harmonic edge-load closed forms, Sanders/FSDT/iso models and the reduced solve are outside (stated in evidence); trig atoms per argument class with S^2+C^2=1.',
     'DESIGN.md section 9.2 / 4 C18')
+CHECKS['C16'] = (OTHER, 'symbolic execution from source of the *_linear.pyx kernels of 13 shell models and of the real ConeCyl._calc_linear_matrices (pi symbolic, trigonometric arguments canonicalised by the solver) ; relational identities per entry with z3 qfnra-nlsat; exact-rational replay plus an independent float replay on the compiled kernels',
+    'Bounded symbolic verification of the relational clauses: cone at zero angle = cylinder kernels (k0, kG0), kG0 split/homogeneity in (Fc,P,T), isotropic short-cuts = general models, written lower-triangle entries = mirror, laminate matrix independent of the number of evaluations; the energy-Hessian and PSD clauses are NOT decided (no exact trigonometric integrator) and are listed as outside in evidence.',
+    'Series orders (1,1,1)/(2,2,2), sections s <= 2; bcn Donnell modules not importable; four recorded findings in .pyx kernels (bc2 Donnell cone, fsdt Sanders bcn).',
+    'DESIGN.md section 9.2 / 4 C16')
 NA = {
-    'C16': _SHELL, 'C17': _SHELL,
+    'C17': _SHELL,
     'C15': 'eigenvalue monotonicity/convergence for pencils of size 48..768 is not a bounded first-order query any installed solver can decide; the algebraic ingredients (exact Hessians, exact tables, nestedness) are decided under C02-C04 and C10 (DESIGN.md section 5)',
 }
 man = {
